@@ -194,6 +194,8 @@ struct RunOut {
     res: ExecResult,
     sample: Option<Value>,
     violation_trace: Option<Value>,
+    /// the trace as generated (before minimisation), kept for violations only
+    original_trace: Option<Value>,
 }
 
 pub fn run_batch<P: Prop>(p: &P, cfg: &BatchCfg) -> i32 {
@@ -290,7 +292,9 @@ pub fn run_batch<P: Prop>(p: &P, cfg: &BatchCfg) -> i32 {
                         }
                     }
                     let mut violation_trace = None;
+                    let mut original_trace = None;
                     if let Some(v) = &res.violation {
+                        original_trace = Some(trace.clone());
                         let (min, evals) = minimise(p, &mut w, &trace, &v.oracle);
                         let mut min = min;
                         // the detail that goes with the minimised trace
@@ -318,6 +322,7 @@ pub fn run_batch<P: Prop>(p: &P, cfg: &BatchCfg) -> i32 {
                         res,
                         sample,
                         violation_trace,
+                        original_trace,
                     });
                 }
                 outs.lock().unwrap().append(&mut local);
@@ -408,10 +413,37 @@ pub fn run_batch<P: Prop>(p: &P, cfg: &BatchCfg) -> i32 {
         let status = std::process::Command::new(std::env::current_exe().unwrap())
             .args(["replay", &path, "--quiet"])
             .output();
-        let reproduced = match &status {
+        let mut reproduced = match &status {
             Ok(out) => out.status.code() == Some(1),
             Err(_) => false,
         };
+        let mut status = status;
+        if !reproduced
+            && let Some(orig) = &o.original_trace
+        {
+            // The minimiser re-executes candidates in the worker that found the violation. If the
+            // system under test lets executions influence each other (process-wide state), a
+            // shrunk trace may "fail" only there. The trace as generated is then validated
+            // instead and, if it reproduces, reported unminimised.
+            let mut t0 = orig.clone();
+            if let Some(obj) = t0.as_object_mut() {
+                obj.insert("property".into(), json!(id));
+                obj.insert("oracle".into(), json!(v.oracle));
+                obj.insert("detail".into(), json!(v.detail));
+                obj.insert("verif_seed".into(), json!(cfg.verif_seed));
+                obj.insert("unminimised".into(), json!("shrunk candidates did not reproduce in a fresh process"));
+            }
+            std::fs::write(&path, serde_json::to_string_pretty(&t0).unwrap()).unwrap();
+            let st2 = std::process::Command::new(std::env::current_exe().unwrap())
+                .args(["replay", &path, "--quiet"])
+                .output();
+            if let Ok(out) = &st2
+                && out.status.code() == Some(1)
+            {
+                reproduced = true;
+                status = st2;
+            }
+        }
         if !reproduced {
             // Not reported as a violation (a trace that does not replay proves nothing by itself);
             // it fails the check as a harness error only if no violation of this batch replays.
